@@ -7,7 +7,8 @@
 //	runProtocol(r)  monitor 1, linear Selector/Learner protocol inside the
 //	                scheduler harness            (protocol_test.go, coordinator)
 //	runChoices(r)   monitor 2, well-formed choices of the real analyzers and
-//	                strategy calculators         (choices_test.go)
+//	                strategy calculators         (choices_test.go); returns
+//	                false if a case hung (its goroutines keep spinning)
 //	runStore(r)     monitor 3, persistence of BlobAccessMutableProtoStore
 //	                                             (store_test.go, store_fake_test.go)
 //
@@ -83,7 +84,12 @@ func TestCheck(t *testing.T) {
 	// ------------------------------------------------------------------
 
 	// Monitor 2: well-formed choices (pure, high volume).
-	runChoices(r)
+	if !runChoices(r) {
+		// A case hung (already reported): its goroutines keep spinning
+		// and would starve and distort the concurrency rounds below.
+		r.Inconclusive("store monitor not run: a choices case hung and still occupies its goroutine")
+		return
+	}
 
 	// Monitor 3: persistence of the mutable proto store.
 	runStore(r)
